@@ -68,6 +68,10 @@ def run(rep: Report, tier: str) -> None:
     m, prog, norm = fr.m, fr.prog, fr.norm
     gen = fr.gen
 
+    rb0 = rep.rule("C19.b", "key identifies the transaction within the table's lifetime: lifetime x fields of the key's equality; ids unique inside an asset", floor=4)
+    from ..engine import check_private_shadowing
+
+    check_private_shadowing(rep, rb0, [gen])  # a per-asset reset must bind the attribute the lookups read (private names are mangled per class)
     # ---------------------------------------------------------------- C19.a
     ra = rep.rule("C19.a", "store/lookup agreement: each writer records its row's transaction -> row_index + 1; readers build '#<sheet of own asset>.a<row>:z<row>' or no link", floor=9)
     for name in ("__generate_in_table", "__generate_out_table", "__generate_intra_table"):
@@ -79,6 +83,11 @@ def run(rep: Report, tier: str) -> None:
                 continue
             stores = [e for e in p.stores() if e[1][0] == "fld" and e[1][2] == T2R]
             ok = len(stores) == 1 and stores[0][2] == ("sym", var[0]) and tkey(stores[0][3]) == tkey(mk_add([("sym", "row_index"), ("const", 1)]))
+            if not stores:
+                via = [e for e in p.calls() if not show(e[1]).split("(")[0].endswith("_fill_cell") and ("sym", var[0]) in subterms(e[1]) and ("sym", "row_index") in subterms(e[1])]
+                if via:
+                    rep.defer_error(f"{loc(via[0][-1])}: {name} records the row through {show(via[0][1])[:80]}, a helper this rule does not follow: the store/lookup agreement is not decided for this shape")
+                    continue
             rep.check(ok, ra, fi.module, fi.qualname, f"{name}: link table[this transaction] = row_index + 1 (before the advance)", f"{name} records {[(show(e[2])[:40], show(e[3])[:40]) for e in stores]} in the transaction->row table; expected exactly one entry: this row's transaction -> row_index + 1 (1-based address of the row just written)", loc(loop))
     for name in ("__generate_gain_loss_detail",):
         pass
@@ -91,7 +100,7 @@ def run(rep: Report, tier: str) -> None:
         ctx = Ctx(FR, gen)
         got = norm.inline(rd_row, ("sym", "self"), {"transaction": (tr, ("cls", "rp2.abstract_transaction:AbstractTransaction"))}, ctx)
         table = ("fld", ("sym", "self"), T2R)
-        want = ("ite", ("cmp", "not in", tr, table), ("const", None), ("sub", table, tr))
+        want = ("ite", ("cmp", "in", tr, table), ("sub", table, tr), ("const", None))
         alt = ("ite", ("cmp", "in", tr, table), ("sub", table, tr), ("const", None))
         is_get = got[0] == "xcall" and got[1] == "get" and got[2] == table and got[3][:1] == (tr,)
         rep.check(tkey(got) in (tkey(want), tkey(alt)) or is_get, ra, FR, rd_row.qualname, "row lookup: recorded row of this transaction, None when absent", f"__get_in_out_sheet_row normalises to {show(got)[:200]}; expected table[transaction] when present else None", loc(rd_row.node))
@@ -219,6 +228,9 @@ def run(rep: Report, tier: str) -> None:
     rdd = rep.rule("C19.d", "every hyperlinked taxable-event cell links gl.taxable_event, every lot cell gl.acquired_lot, every summary cell (asset, line's year)", floor=20)
     c13.check_writer(rep, fr, "__generate_gain_loss_detail", rdd, rdd)
     c13.check_writer(rep, fr, "__generate_yearly_gain_loss_summary", rdd, rdd)
+    from ..engine import check_cell_sink
+
+    check_cell_sink(rep, rdd)  # a hyperlink formula reaches the sheet only if the sink writes the string it is given
 
 
 def _mentions_year_store_guard(c, ev_year) -> Optional[bool]:
